@@ -449,8 +449,11 @@ def check_config(cfg, acc):
 
             for attempt in range(3):
                 try:
-                    explore(run, on_leaf, bound=cfg["bound"],
-                            max_leaves=cfg.get("max_leaves", 200))
+                    res = explore(run, on_leaf, bound=cfg["bound"],
+                                  max_leaves=cfg.get("max_leaves", 200))
+                    if res["capped"]:
+                        acc.count("interrupt_points_with_capped_schedule_exploration")
+                    acc.count("schedules", res["leaves"])
                     break
                 except Divergence as e:
                     # a replayed prefix behaved differently from the execution that produced
@@ -530,8 +533,15 @@ def run(tier, seed, acc):
                 "write through a memmap is durable only after flush() on that file, and no file "
                 "may be left written-but-unflushed at return; "
                 "non-trivial = distinct (configuration, interrupt point) pairs judged consistent",
-        "exhaustive": True,
+        # interrupt points: all; schedules of the simulated pool at preemption bound 0: all; at
+        # bound 1 (thorough) the exploration of one interrupt point is cut at max_leaves schedules
+        "exhaustive": c.get("interrupt_points_with_capped_schedule_exploration", 0) == 0,
+        "caps_hit": (["max_leaves"] if c.get("interrupt_points_with_capped_schedule_exploration")
+                     else []),
+        "schedules": c.get("schedules", 0),
         "bounds": {"configs": len(cfgs), "crash_points": c.get("crash_points", 0),
+                   "schedule_exploration_capped_at_points":
+                       c.get("interrupt_points_with_capped_schedule_exploration", 0),
                    "memmap_files_tracked": c.get("memmap_files_tracked", 0),
                    "verdicts": {k: v for k, v in c.items() if k.startswith("verdict_")}},
     }
